@@ -30,6 +30,8 @@ import (
 	_ "google.golang.org/grpc/encoding/gzip"
 	"google.golang.org/grpc/internal"
 	"google.golang.org/grpc/internal/grpcutil"
+	"google.golang.org/grpc/internal/zzverif/core"
+	"google.golang.org/grpc/internal/zzverif/simnet"
 	"google.golang.org/grpc/internal/zzverif/tap"
 	"google.golang.org/grpc/serviceconfig"
 )
@@ -289,6 +291,25 @@ func init() {
 		{&miscCredsCfg{}, &miscCredsCfg{Transport: "custom", Level: 1, AddrNet: "tcp", Dial: []miscCred{{Require: true, K: "k", V: "v", VHex: "00"}}, Calls: []miscCallCred{{ID: 1, Cred: miscCred{Require: true, K: "k", V: "v"}}}, ProbeDial: true}},
 		{&miscStopCfg{}, &miscStopCfg{Events: []miscStopEv{{AtNs: 1, Kind: "stop"}}, IgnoreCancel: true, Drain: true}},
 	}
+	// The worker marshals and decodes scenarios and replies between runs
+	// (outside the bubble); every struct type it meets for the first time is
+	// added to encoding/json's process-global type cache, whose shape decides
+	// how many atomic loads a later lookup inside a run performs. Insert them
+	// all now, so the cache never changes after process start.
+	full := &Scenario{Oracles: []string{"x"}, Faults: []simnet.Fault{{Kind: "stall"}}, RPCs: []RPC{{ID: 1, MD: []KV{{K: "k", V: "v"}}, Client: []Op{{Op: "send", MD: []KV{{K: "k"}}, Details: []string{"d"}}}, Server: [][]Op{{{Op: "recv"}}}}}, Actions: []Action{{AtNs: 1, Kind: "stop"}}, Ext: map[string]json.RawMessage{"x": json.RawMessage(`{}`)}, Target: "t", Listeners: []string{"l"}}
+	warm = append(warm, struct {
+		v   any
+		src any
+	}{&Scenario{}, full})
+	rep := &core.Reply{Seed: 1, Invalid: "x", Shape: "x", Scenario: json.RawMessage(`{}`), Outcome: &core.Outcome{Viol: []core.Violation{{Oracle: "o"}}, Probes: map[string]int{"p": 1}, Faults: map[string]int{"f": 1}, Notes: map[string]string{"n": "v"}, Log: []string{"l"}, Panic: "p", DecRLE: "0"}}
+	warm = append(warm, struct {
+		v   any
+		src any
+	}{&core.Reply{}, rep})
+	warm = append(warm, struct {
+		v   any
+		src any
+	}{&core.Request{}, &core.Request{Prop: "p", Mode: "seeds", Tier: "quick", Seeds: []uint64{1}, Scenario: json.RawMessage(`{}`)}})
 	for _, w := range warm {
 		b, err := json.Marshal(w.src)
 		if err != nil {
